@@ -211,11 +211,14 @@ theorem readRange_trunc (b : Bytes) (r : ByteRange) (x : Bytes) (h : readRange b
   | fromStart o l =>
     cases l with
     | none =>
-      simp only [readRange, Option.some.injEq] at h
-      subst h
-      simp only [ByteRange.extractTrunc, slice]
-      rw [List.take_of_length_le]
-      simp
+      simp only [readRange] at h
+      split at h
+      · simp only [Option.some.injEq] at h
+        subst h
+        simp only [ByteRange.extractTrunc, slice]
+        rw [List.take_of_length_le]
+        simp
+      · cases h
     | some l =>
       simp only [readRange] at h
       split at h
@@ -223,12 +226,7 @@ theorem readRange_trunc (b : Bytes) (r : ByteRange) (x : Bytes) (h : readRange b
         simp only [Option.some.injEq] at h
         subst h
         simp only [ByteRange.extractTrunc, slice]
-        rcases hc with hc | hc
-        · subst hc
-          simp only [Nat.add_zero, Nat.sub_self, List.take_zero]
-          have : min o b.length - o = 0 := by omega
-          rw [this, List.take_zero]
-        · rw [Nat.min_eq_left hc]
+        rw [Nat.min_eq_left hc]
       · cases h
   | suffix l =>
     simp only [readRange] at h
@@ -247,14 +245,15 @@ theorem readRange_valid (b : Bytes) (r : ByteRange) (h : r.valid b.length = true
   | fromStart o l =>
     cases l with
     | none =>
+      simp only [ByteRange.valid, Option.getD_none, Nat.add_zero, decide_eq_true_eq] at h
       rw [← ht]
       simp only [readRange, ByteRange.extractTrunc, slice]
-      rw [List.take_of_length_le]
+      rw [if_pos h, List.take_of_length_le]
       simp
     | some l =>
       simp only [ByteRange.valid, Option.getD_some, decide_eq_true_eq] at h
       simp only [readRange]
-      rw [if_pos (Or.inr h)]
+      rw [if_pos h]
       rfl
   | suffix l =>
     simp only [ByteRange.valid, decide_eq_true_eq] at h
